@@ -1,4 +1,4 @@
 SPECIFICATION Spec
 CONSTANTS N = 3
- Alphabet = {47, 46, 97}
+ Alphabet = {47, 46, 97, 98}
 INVARIANTS RenderOK RefRelOK LWeaker NoRelOK
